@@ -4,6 +4,8 @@
 import Krp.Lemmas.HubFrame
 import Krp.System
 import Krp.Init
+import Krp.Lemmas.Reach
+import Krp.Props.C17
 namespace Krp
 open HubSt
 
@@ -238,6 +240,41 @@ theorem C20_rejected_changes_nothing (s : Sys) (m : Msg) (e : String)
     (hx : (s.exec m).2 = .error e) : (s.exec m).1 = s := by
   unfold Sys.exec at *
   split <;> simp_all
+
+/-- **Every reachable state.** From any state with the ranges in force (in particular the
+    instantiated one: `C20_hub_init_range`, `C17_keeper_rate_le_one`), after any history of any
+    length the hub's peg recovery fee and exchange-rate threshold and the dispatcher's keeper rate
+    are still at most 1, and the dispatcher's stSei reward denom is the one it was created with. -/
+theorem C20_reachable (s : Sys) (l : List Step)
+    (h1 : s.hub.fee ≤ D) (h2 : s.hub.thr ≤ D) (h3 : s.disp.keeperRate ≤ D) :
+    (s.steps l).hub.fee ≤ D ∧ (s.steps l).hub.thr ≤ D ∧ (s.steps l).disp.keeperRate ≤ D ∧
+    (s.steps l).disp.stDenom = s.disp.stDenom := by
+  exact steps_inv
+    (fun x => x.hub.fee ≤ D ∧ x.hub.thr ≤ D ∧ x.disp.keeperRate ≤ D ∧ x.disp.stDenom = s.disp.stDenom)
+    (by
+      intro x m x' ms hp hx
+      obtain ⟨p1, p2, p3, p4⟩ := hp
+      cases handle_touch x x' m ms hx with
+      | none h => rw [h.hub, h.disp]; exact ⟨p1, p2, p3, p4⟩
+      | hub e sender funds hm hx' b t r d g =>
+        have st := C20_hub_step_range _ _ _ _ _ _ _ ⟨p1, p2⟩ hx'
+        rw [d]; exact ⟨st.1, st.2.1, p3, p4⟩
+      | bsei blk rw sender tm hx' h t r d g => rw [h, d]; exact ⟨p1, p2, p3, p4⟩
+      | stsei blk sender tm hx' h b r d g => rw [h, d]; exact ⟨p1, p2, p3, p4⟩
+      | reward tok dsp bal sender rm hx' h b t d g => rw [h, d]; exact ⟨p1, p2, p3, p4⟩
+      | disp env sender dm hx' h b t r g =>
+        rw [h]
+        exact ⟨p1, p2, C17_keeper_rate_le_one.2 _ _ _ _ _ _ _ p3 hx',
+          by rw [(C20_dispatcher_fields _ _ _ _ _ _ _ hx').1]; exact p4⟩
+      | reg s1 sender rm h1 hx' h b t r d => rw [h, d]; exact ⟨p1, p2, p3, p4⟩)
+    (by
+      intro x e hp
+      cases e with
+      | seedLegacy u b a => exact hp
+      | slash v n d => simp only [Sys.env]; split <;> exact hp
+      | slashUnbonding v n d => simp only [Sys.env]; split <;> exact hp
+      | _ => exact hp)
+    l s ⟨h1, h2, h3, rfl⟩
 
 /-! Non-vacuity: an in-range instantiate succeeds. -/
 example : ∃ h, hubInit 1 0 30 100 D D 1 3 = .ok h := ⟨_, rfl⟩
